@@ -456,7 +456,7 @@ class ProjectGen:
                 kw.append(f'objects: {o.var}.extract_all_objects(recursive: false)')
                 it.deps.append(o.id)
                 self.features.add('extract_all_objects')
-        nsrc = r.choice([1, 1, 2, 3])
+        nsrc = r.choice([1, 1, 2, 3, 4, 4, 5, 8])
         asm_only = kind != 'exe' and r.random() < 0.07
         if asm_only:
             # a library made of one assembly source (never unity-compiled)
@@ -739,6 +739,28 @@ class ProjectGen:
                 self.features.add('benchmark')
             self.body[slot].append(f"{func}({mstr(name)}, {e.var}{''.join(', ' + k for k in kw)})")
             self.tests.append({'name': name, 'benchmark': bench, 'prereq': sorted(set(prereq)), 'sp': sp})
+        # distinct targets that share a name (other dir / other kind): one test or benchmark for each of them, so
+        # that every one must be a prerequisite in its own right
+        byname: T.Dict[str, T.List[Item]] = {}
+        for x in self.earlier(sp, ['exe', 'custom', 'static', 'shared', 'library', 'both']):
+            byname.setdefault(x.name, []).append(x)
+        for name_, group in byname.items():
+            if len(group) < 2:
+                continue
+            self.features.add('test:same-named-distinct-targets')
+            for bench in (False, True):
+                for x in group:
+                    self.counter += 1
+                    tn = f'sn{self.counter}'
+                    func = 'benchmark' if bench else 'test'
+                    if x.kind == 'exe':
+                        call = f"{func}({mstr(tn)}, {x.var})"
+                    elif x.kind == 'custom' and r.random() < 0.5:
+                        call = f"{func}({mstr(tn)}, py, args: ['-c', 'pass', {x.var}])"
+                    else:
+                        call = f"{func}({mstr(tn)}, py, args: ['-c', 'pass'], depends: [{x.var}])"
+                    self.body[slot].append(call)
+                    self.tests.append({'name': tn, 'benchmark': bench, 'prereq': [x.id], 'sp': sp})
         # a test whose "executable" is a custom target output (a script); rare
         scripts = [c for c in self.earlier(sp, ['custom']) if not c.default]
         if scripts and r.random() < 0.15:
